@@ -1373,18 +1373,27 @@ class Engine:
         info.early = [(o[3], o[0]) for o in early]
         info.normal = [o[0] for o in normal]
         atoms = []
+        # `let mut g = draw(); while bad(g) { g = draw(); }`: the value that leaves the loop is one of the draws (the
+        # first or a later one); it is represented by the loop's own draw, like in `loop { let g = draw(); if ok(g) .. }`
+        redraw = {}
+        if info.kind == "generic" and len(early) == 1 and not normal:
+            for c in M:
+                i0, s0 = info.init.get(c), info.step.get(c)
+                if i0 is not None and s0 is not None and i0[0] == "rand" and s0[0] == "rand" and i0[1] == s0[1] \
+                        and not any(contains_term(s0, ("lv", uid, c2)) for c2 in M):
+                    redraw[("lv", uid, c)] = s0
         for k, o in enumerate(early):
             if info.kind == "iter":
                 atoms.append(bdd.var(("anyiter", uid, ("b", o[3]))))
             elif len(early) == 1:
                 atoms.append(1)
                 # sole way out of a `loop {}`: its guard holds for the values that leave the loop
-                self.assumed.append(self.bdd_subst(o[3], {("lv", uid, c): ("some_iter", uid, c) for c in M}))
+                self.assumed.append(self.bdd_subst(o[3], {("lv", uid, c): redraw.get(("lv", uid, c), ("some_iter", uid, c)) for c in M}))
             else:
                 atoms.append(bdd.var(("exit", uid, k)))
         res = []
         sub_out = {("lv", uid, c): ("loopout", uid, c) for c in M}
-        sub_some = {("lv", uid, c): ("some_iter", uid, c) for c in M}
+        sub_some = {("lv", uid, c): redraw.get(("lv", uid, c), ("some_iter", uid, c)) for c in M}
         if info.kind == "iter" and not early and info.src is not None:
             # push loops: a vector that starts empty and receives exactly one element per iteration is the
             # element-wise map of the iterated collection (`for .. { v.push(f(..)) }` == `.map(f).collect()`)
